@@ -558,6 +558,8 @@ type FuncSpec struct {
 	Pure      bool
 	Trusted   bool // contract assumed, body not verified (external functions)
 	Lemma     bool
+	Induction *InductionSpec // lemma proved by well-founded induction on an integer measure of one parameter
+	UseLemmas []*UseLemma    // proved lemma functions instantiated (for all values of the "_" arguments) at every return
 	NoInline  bool
 	Inline    bool
 	Loops     map[int]*LoopSpec
@@ -568,6 +570,18 @@ type FuncSpec struct {
 	Src       SpecLine
 	Pkg       string // package path whose scope resolves type names
 	Flags     map[string]string
+}
+
+type InductionSpec struct {
+	Var     string
+	Measure *SX
+	Src     SpecLine
+}
+
+type UseLemma struct {
+	Key  string
+	Args []*SX // nil: universally quantified argument
+	Src  SpecLine
 }
 
 type Define struct {
@@ -615,7 +629,10 @@ func NewSpecSet() *SpecSet {
 
 var clauseKeywords = map[string]bool{"requires": true, "ensures": true, "modifies": true, "pure": true, "trusted": true, "lemma": true,
 	"loop": true, "invariant": true, "decreases": true, "callspec": true, "observe": true, "replay": true, "prop": true, "func": true,
-	"sort": true, "seqsort": true, "fun": true, "ghost": true, "axiom": true, "define": true, "inline": true, "noinline": true, "guarded": true, "flag": true, "loopmodifies": true, "lockrequires": true, "lockensures": true, "lockinvariant": true, "witness": true, "loopfresh": true, "assumes": true, "loopkeeps": true, "assert": true, "acquires": true}
+	"sort": true, "seqsort": true, "fun": true, "ghost": true, "axiom": true, "define": true, "inline": true, "noinline": true, "guarded": true, "flag": true, "loopmodifies": true, "lockrequires": true, "lockensures": true, "lockinvariant": true, "witness": true, "loopfresh": true, "assumes": true, "loopkeeps": true, "assert": true, "acquires": true, "induction": true, "uselemma": true}
+
+// ActiveFacets: facets whose "@name ..." clauses are part of the contracts in this run (set before the specs are loaded).
+var ActiveFacets = map[string]bool{}
 
 // ParseSpecLines parses the //@ lines of one package (pkgPath is used for type resolution).
 func (ss *SpecSet) ParseSpecLines(lines []SpecLine, pkgPath string, keyPrefix string) error {
@@ -625,6 +642,7 @@ func (ss *SpecSet) ParseSpecLines(lines []SpecLine, pkgPath string, keyPrefix st
 		src      SpecLine
 	}
 	var items []item
+	skipping := false // inside a clause of an inactive facet (its continuation lines are dropped too)
 	for _, l := range lines {
 		t := strings.TrimSpace(l.Text)
 		if t == "" || strings.HasPrefix(t, "#") {
@@ -633,14 +651,31 @@ func (ss *SpecSet) ParseSpecLines(lines []SpecLine, pkgPath string, keyPrefix st
 		if i := strings.Index(t, " //"); i >= 0 {
 			t = strings.TrimSpace(t[:i])
 		}
+		// "@facet clause...": the clause belongs to a facet and exists only when that facet is active (ActiveFacets)
+		facetOff := false
+		if strings.HasPrefix(t, "@") {
+			i := strings.IndexAny(t, " \t")
+			if i < 0 {
+				return fmt.Errorf("%s:%d: facet without clause", l.File, l.Line)
+			}
+			facetOff = !ActiveFacets[t[1:i]]
+			t = strings.TrimSpace(t[i+1:])
+		}
 		kw := t
 		rest := ""
 		if i := strings.IndexAny(t, " \t"); i >= 0 {
 			kw, rest = t[:i], strings.TrimSpace(t[i+1:])
 		}
 		if clauseKeywords[kw] {
+			skipping = facetOff
+			if skipping {
+				continue
+			}
 			items = append(items, item{kw, rest, l})
 		} else {
+			if skipping {
+				continue
+			}
 			if len(items) == 0 {
 				return fmt.Errorf("%s:%d: continuation without clause", l.File, l.Line)
 			}
@@ -800,6 +835,42 @@ func (ss *SpecSet) ParseSpecLines(lines []SpecLine, pkgPath string, keyPrefix st
 				cur.Witnesses = append(cur.Witnesses, fd)
 			case "lemma":
 				cur.Lemma = true
+			case "induction":
+				// induction x by measure
+				f := strings.SplitN(it.rest, " by ", 2)
+				if len(f) != 2 {
+					return fmt.Errorf("%s:%d: induction VAR by MEASURE", it.src.File, it.src.Line)
+				}
+				mx, err := ParseSpecExpr(strings.TrimSpace(f[1]))
+				if err != nil {
+					return fmt.Errorf("%s:%d: %v", it.src.File, it.src.Line, err)
+				}
+				cur.Induction = &InductionSpec{Var: strings.TrimSpace(f[0]), Measure: mx, Src: it.src}
+			case "uselemma":
+				// uselemma name(arg, _, ...)
+				i := strings.Index(it.rest, "(")
+				j := matchParen(it.rest, i)
+				if i < 0 || j < 0 {
+					return fmt.Errorf("%s:%d: bad uselemma", it.src.File, it.src.Line)
+				}
+				key := strings.TrimSpace(it.rest[:i])
+				if keyPrefix != "" && !strings.Contains(key, ".") {
+					key = keyPrefix + "." + key
+				}
+				ul := &UseLemma{Key: key, Src: it.src}
+				for _, a := range splitTop(it.rest[i+1:j], ',') {
+					a = strings.TrimSpace(a)
+					if a == "_" {
+						ul.Args = append(ul.Args, nil)
+						continue
+					}
+					ax, err := ParseSpecExpr(a)
+					if err != nil {
+						return fmt.Errorf("%s:%d: %v", it.src.File, it.src.Line, err)
+					}
+					ul.Args = append(ul.Args, ax)
+				}
+				cur.UseLemmas = append(cur.UseLemmas, ul)
 			case "inline":
 				cur.Inline = true
 			case "noinline":
